@@ -75,7 +75,8 @@ def handleSum (l : Line) : IO Unit := do
   -- specification oracle on the implementation's outputs
   let impl : Spec.MathSpec.ImplSummary :=
     { center := bitsD l "ic", lo := bitsD l "ilo", hi := bitsD l "ihi", conf := bitsD l "iconf",
-      warn := l.getD "iwarn" != "-", warnText := l.getD "iwarn", pct := unhexStr (l.getD "ipct") }
+      warn := l.getD "iwarn" != "-", warnText := l.getD "iwarn", pct := unhexStr (l.getD "ipct"),
+      wn := (l.nat? "wn").getD 0, wfin := l.getD "wfin" == "1", wprev := l.getD "wprev" == "1" }
   let v := match a with
     | "exact" => Spec.MathSpec.judgeExact vals impl
     | "nothing" => Spec.MathSpec.judgeNothing vals conf ((l.nat? "qlo").getD 0) ((l.nat? "qhi").getD 0) (needTab (l.getD "need")) impl
@@ -154,7 +155,7 @@ def handle (l : Line) : IO Unit := do
     let on := Nothing.uTestSamples (bitsD l "alpha")
     IO.println s!"obs {l.id} need={on.1.show}:{on.2}"
   | "ms" =>
-    let on := Nothing.medianSamples (needTab (l.getD "need"))
+    let on := Nothing.medianSamplesAbove (needTab (l.getD "need")) ((l.nat? "have").getD 0)
     IO.println s!"obs {l.id} need={on.1.show}:{on.2}"
   | _ => pure ()
 
